@@ -123,7 +123,19 @@ class CloseHooks(LatchHooks):
         return outs
 
     def prim_qmail_errstr(self, E, x, args):
-        return [Outcome(ret=fs(0)), Outcome(ret=fs(2)), Outcome(ret=fs(3)), Outcome(ret=fs(200))]
+        # the text the queue program wrote to its descriptor 6: length and first byte (D, Z, NUL, another byte)
+        p = None
+        if len(args) > 1 and args[1] is not TOP and len(args[1]) == 1:
+            (a,) = args[1]
+            if isinstance(a, tuple) and a[0] == '&':
+                p = a[1]
+        if p is None:
+            raise AnalysisBroken('qmail_close: qmail_errstr(qq, buffer) shape changed')
+        outs = [Outcome(ret=fs(0), sets={p: fs(0)})]
+        for ln in (1, 2, 3, 200):
+            for b in (ord('D'), ord('Z'), 0, ord('x')):
+                outs.append(Outcome(ret=fs(ln), sets={p: fs(b)}, log='queue program wrote %d bytes to descriptor 6, the first is %r' % (ln, chr(b))))
+        return outs
 
     def on_return(self, E, fn, val):
         w = g1(E, '$w')
@@ -136,7 +148,8 @@ class CloseHooks(LatchHooks):
             if isinstance(v, tuple) and v[0] == 'str':
                 kind = v[1][:1] if v[1] else 'EMPTY'
             elif isinstance(v, tuple) and v[0] == '&':
-                kind = 'errstr'
+                b0 = g1(E, v[1])
+                kind = 'errstr:' + (chr(b0) if isinstance(b0, int) and 32 < b0 < 127 else 'NUL' if b0 == 0 else '?')
             else:
                 kind = '?'
         if w is None:
@@ -148,6 +161,8 @@ class CloseHooks(LatchHooks):
         key = ('crash' if crashed else code, 'latched' if (init == 1) else 'clear')
         self.table.setdefault(key, set()).add(kind)
         # the specification (qmail-queue.8 EXIT CODES; property C07)
+        if kind.startswith('errstr') and not (not crashed and code == 82):
+            self.site('qmail_close:custom-text-only-for-exit-82', None, False, 'the queue program\'s own text is returned for status %s crashed=%s' % (code, crashed), E)
         if kind == 'EMPTY':
             ok = (not crashed) and code == 0 and init == 0 and not g1(E, '$failed', 0)
             self.site('qmail_close:success-only-for-exit0+no-failure', None, ok,
@@ -163,7 +178,8 @@ class CloseHooks(LatchHooks):
             elif 11 <= code <= 40:
                 self.site('qmail_close:11..40->D', None, kind == 'D', 'exit %d reported as %s' % (code, kind), E)
             elif code == 82:
-                self.site('qmail_close:82->custom-or-Z', None, kind in ('errstr', 'Z', 'D'), 'exit 82 reported as %s' % kind, E)
+                self.site('qmail_close:82->custom-D/Z-text-or-Z', None, kind in ('errstr:D', 'errstr:Z', 'Z', 'D'),
+                          'exit 82 (custom error text) is reported with the queue program\'s text although it does not start with D or Z (%s): callers take a result whose first byte is NUL for success and acknowledge a message that was not queued' % kind, E)
             elif code == 115:
                 self.site('qmail_close:115-compat', None, kind in ('D', 'Z'), 'exit 115 reported as %s' % kind, E)
             else:
